@@ -58,7 +58,10 @@ def recompute (v : View) : View :=
   let h := (v.members.filter (fun e => e.2.status = 1)).length
   let u := v.members.length - h
   let q := if h > 0 then h / 2 + 1 else 0
-  let vv := if v.members.length > 0 then pruneWithMax v.vv (mkeys v.members) v.maxVV else v.vv
+  -- the cap bounds what departed nodes leave behind; it is never applied below the member count
+  -- (repaired: a configured cap smaller than the membership used to drop live members' entries)
+  let lim : Nat := max (if v.maxVV ≤ 0 then VV.maxEntries else v.maxVV.toNat) v.members.length
+  let vv := if v.members.length > 0 then pruneWithMax v.vv (mkeys v.members) (Int.ofNat lim) else v.vv
   { v with healthy := h, unhealthy := u, quorum := q, vv := vv }
 
 def addMember (v : View) (m : NodeState) : View :=
